@@ -15,6 +15,8 @@ import (
 
 var siblingSettings = []string{"enum no", "skipCopySameType"}
 
+// D19 classes by the setting B itself carries
+
 func famSiblings(r *rng.R, id int) *famOut {
 	p := fmt.Sprintf("Sb%d", id)
 	f := &famOut{}
@@ -29,14 +31,39 @@ func famSiblings(r *rng.R, id int) *famOut {
 	if r.Bool() {
 		nestedEnumS, nestedEnumT = "\tE "+qa+".Kind\n", "\tE "+qb+".Kind\n"
 	}
-	f.Types = fmt.Sprintf(`type %[1]sInner struct {
+	// flavour 1: B has a *int -> int field and no flag of its own (must be rejected whatever A says);
+	// flavour 2: the shared nested pair holds a field converted by a fallible extend function and A toggles wrapErrors
+	flavour := r.Intn(4)
+	pinned := id%6 == 0 // every 6th instance: wrapErrors on A only, A generated first, fallible function in the shared pair
+	if pinned {
+		flavour = 2
+	}
+	bExtraS, bExtraT, nExtraS, nExtraT := "", "", "", ""
+	if flavour == 1 {
+		bExtraS, bExtraT = "\tPV *int\n", "\tPV int\n"
+	}
+	if flavour == 3 {
+		flavour = 2
+	}
+	if flavour == 2 {
+		nExtraS, nExtraT = "\tX "+p+"A\n", "\tX "+p+"B\n"
+		f.Custom = fmt.Sprintf("func Ext%[1]s(s %[1]sA) (%[1]sB, error) {\n\tif rt.Fails(%[2]q, s) {\n\t\treturn %[1]sB{}, rt.Boom(%[2]q)\n\t}\n\treturn %[1]sB{Stamp: rt.Stamp(%[2]q, s)}, nil\n}\n\n", p, "Ext"+p)
+		f.FailOn = append(f.FailOn, [2]string{"Ext" + p, "13"})
+	}
+	f.Types = fmt.Sprintf(`type %[1]sA struct {
+	V int
+}
+type %[1]sB struct {
+	Stamp string
+}
+type %[1]sInner struct {
 	P *int
 }
 type %[1]sN struct {
-%[4]s	I %[1]sInner
+%[4]s%[8]s	I %[1]sInner
 }
 type %[1]sNT struct {
-%[5]s	I %[1]sInner
+%[5]s%[9]s	I %[1]sInner
 }
 type %[1]sWa struct {
 	N %[1]sN
@@ -55,23 +82,38 @@ type %[1]sWb struct {
 	E %[2]s.Kind
 	I %[1]sInner
 	B int
-}
+%[6]s}
 type %[1]sWbT struct {
 	N %[1]sNT
 	E %[3]s.Kind
 	I %[1]sInner
 	B int
-}
-`, p, qa, qb, nestedEnumS, nestedEnumT)
+%[7]s}
+`, p, qa, qb, nestedEnumS, nestedEnumT, bExtraS, bExtraT, nExtraS, nExtraT)
 	xa := rng.Pick(r, siblingSettings)
 	xb := rng.Pick(r, append([]string{""}, siblingSettings...))
+	res := func(t string) string { return t }
+	extendLine := ""
+	switch flavour {
+	case 1:
+		xa = "useZeroValueOnPointerInconsistency"
+		xb = rng.Pick(r, []string{"", "enum no"})
+	case 2:
+		xa = rng.Pick(r, []string{"wrapErrors", "wrapErrors", "enum no"})
+		xb = rng.Pick(r, []string{"", "wrapErrors no", "enum no"})
+		res = func(t string) string { return "(" + t + ", error)" }
+		extendLine = "// goverter:extend Ext" + p + "\n"
+		if pinned {
+			xa, xb = "wrapErrors", ""
+		}
+	}
 	nameA, nameB := "A0", "B1"
-	if r.Bool() {
+	if !pinned && r.Chance(35) {
 		nameA, nameB = "Z0", "B1" // B is generated first
 	}
 	for _, on := range []bool{true, false} {
 		var b strings.Builder
-		b.WriteString("// goverter:converter\n// goverter:enum:unknown @ignore\n")
+		b.WriteString("// goverter:converter\n// goverter:enum:unknown @ignore\n" + extendLine)
 		name := p + "Off"
 		if on {
 			name = p + "On"
@@ -80,11 +122,11 @@ type %[1]sWbT struct {
 		if on {
 			b.WriteString("\t// goverter:" + xa + "\n")
 		}
-		b.WriteString(fmt.Sprintf("\t%s(source %sWa) %sWaT\n", nameA, p, p))
+		b.WriteString(fmt.Sprintf("\t%s(source %sWa) %s\n", nameA, p, res(p+"WaT")))
 		if xb != "" {
 			b.WriteString("\t// goverter:" + xb + "\n")
 		}
-		b.WriteString(fmt.Sprintf("\t%s(source %sWb) %sWbT\n", nameB, p, p))
+		b.WriteString(fmt.Sprintf("\t%s(source %sWb) %s\n", nameB, p, res(p+"WbT")))
 		b.WriteString("}\n\n")
 		f.add(name, b.String())
 	}
@@ -92,8 +134,8 @@ type %[1]sWbT struct {
 }
 
 func runSiblings(e *env) error {
-	e.rep.Rule += "; siblings: pairs of converters that differ in ONE method-level line (enum no / skipCopySameType) on method A, with method B (own setting from {none, enum no, skipCopySameType}, either generation order) sharing a nested struct pair, a direct enum field and an identically typed field with A; B is executed on the same values in both converters and must return the same results"
-	nb, per := 1, 24
+	e.rep.Rule += "; siblings: pairs of converters that differ in ONE method-level line (enum no / skipCopySameType) on method A (also useZeroValueOnPointerInconsistency while B has a *T->U field and must stay rejected, and wrapErrors while a fallible extend function sits in the shared nested pair), with method B (own setting from {none, enum no, skipCopySameType, wrapErrors no}, either generation order) sharing a nested struct pair, a direct enum field and an identically typed field with A; B is executed on the same values in both converters and must return the same results"
+	nb, per := 1, 36
 	if e.thorough {
 		nb, per = 3*e.scale, 40
 	}
